@@ -292,7 +292,12 @@ func (c *pdClient) BatchScanRegions(ctx context.Context, keyRanges []router.KeyR
 	var lastRegion *router.Region
 	for _, keyRange := range keyRanges {
 		if lastRegion != nil && lastRegion.Meta != nil {
-			if lastRegion.Meta.EndKey == nil || bytes.Compare(lastRegion.Meta.EndKey, keyRange.EndKey) >= 0 {
+			if len(lastRegion.Meta.EndKey) == 0 {
+				// the last region returned reaches the end of the key space: nothing is left to scan
+				break
+			}
+			if len(keyRange.EndKey) > 0 && bytes.Compare(lastRegion.Meta.EndKey, keyRange.EndKey) >= 0 {
+				// this range is already covered (an empty end key means +inf and is never covered here)
 				continue
 			}
 			if bytes.Compare(lastRegion.Meta.EndKey, keyRange.StartKey) > 0 {
@@ -304,7 +309,7 @@ func (c *pdClient) BatchScanRegions(ctx context.Context, keyRanges []router.KeyR
 			lastRegion = rangeRegions[len(rangeRegions)-1]
 		}
 		regions = append(regions, rangeRegions...)
-		limit -= len(regions)
+		limit -= len(rangeRegions)
 		if limit <= 0 {
 			break
 		}
